@@ -82,7 +82,7 @@ func runC01(c *ctx) {
 						w := newRecWriter()
 						if ws.WriteHeader(w, h) == nil {
 							data := append(w.all(), 0xde, 0xad, 0xbe)
-							spec := []string{"-", "r1", "2", "1,1", "3,1,4"}[(li+op)%5]
+							spec := []string{"-", "r1", "2", "1,1", "3,1,4", "z,1,z,1,z,z,2,z,1,z,4,z,8"}[(li+op)%6]
 							c01D(c, data, spec, "eof")
 						}
 					}
@@ -179,7 +179,7 @@ func runC01(c *ctx) {
 						}
 						data = append(data, ext...)
 						data = append(data, 1, 2, 3, 4, 5)
-						c01D(c, data, []string{"-", "r1", "2,3", "r3"}[(pos+int(v))%4], "eof")
+						c01D(c, data, []string{"-", "r1", "2,3", "r3", "z,1,z,1,z,2,z,1,z,z,3"}[(pos+int(v))%5], "eof")
 					}
 				}
 			}
